@@ -1,5 +1,6 @@
 import PersimVerif.Lemmas.WassersteinModel
 import PersimVerif.Lemmas.WassersteinDual
+import PersimVerif.Lemmas.WassersteinExh
 import Mathlib.Analysis.SpecialFunctions.Trigonometric.Basic
 import Mathlib.Tactic.Choose
 import Mathlib.Tactic.NormNum
@@ -201,6 +202,11 @@ theorem lsaContract_satisfiable : ∃ lsa : Mat K → List (Nat × Nat), LsaCont
   choose lsa hlsa using key
   exact ⟨lsa, fun n D hfeas => hlsa _ n D rfl hfeas⟩
 
+/-- a *computable* solver meeting the contract: the exhaustive search `exhLsa` that the driver runs
+    for `ws.exh` (it returns a valid assignment whenever a finite one exists and none is cheaper) -/
+theorem exhLsa_contract [IsOrderedAddMonoid K] : LsaContract (K := K) exhLsa :=
+  exhLsa_contract'
+
 end lsa
 
 /-! ### 5. the main theorem -/
@@ -295,6 +301,14 @@ theorem wasserstein_eq_spec_of_le (sqrt : K → K) (c : K) (hs : SqrtSpec sqrt) 
   · unfold PM.colCost; split
     · exact le_rfl
     · exact hT.2 j
+
+/-- the model run with the exhaustive solver — exactly what the driver command `ws.exh` executes (at
+    `Float`) — returns the min-sum matching cost: instance `lsa := exhLsa` of the main theorem -/
+theorem exhaustive_model_eq_spec (sqrt : K → K) (c : K) (hs : SqrtSpec sqrt) (hc : CosSpec c)
+    (d1 d2 : Dgm K) :
+    ∃ w rows, wasserstein sqrt c c exhLsa d1 d2 = .ok ⟨some w, warned d1, warned d2, rows⟩ ∧
+      SpecW sqrt (finitePart d1) (finitePart d2) w :=
+  wasserstein_eq_spec_dgm sqrt c hs hc exhLsa exhLsa_contract d1 d2
 
 /-- corollary: the value does not depend on which optimal assignment the solver returns -/
 theorem value_independent_of_solver (sqrt : K → K) (c : K) (hs : SqrtSpec sqrt) (hc : CosSpec c)
